@@ -120,7 +120,11 @@ def mk_portfolio(D, kind):
         st.start, st.end, st.wacc = h(0), h(2), 0
         mG = shapes.mk_market(D, 'mG', nG, 0, 'p')
         mB = shapes.mk_market(D, 'mB', nB, 0, 'q', wacc=0)
-        return eao.portfolio.Portfolio([pl, mc, xt, st, mG, mB])
+        # a CHP with minimum-load costs whose need for on/off variables depends on the grid: a minimum runtime of one hour is one step on the
+        # hourly grids (no on/off variables with a minimum capacity of zero) and four steps on the quarter-hour grid
+        ml = eao.assets.CHPAsset_with_min_load_costs(name='ml', nodes=[nB], price='q', min_cap=0., max_cap=D('ml_max', lo=0), min_runtime=1,
+                                                     min_load_threshhold=D('ml_thr', lo=0), min_load_costs=D('ml_mlc', lo=0), _no_heat=True)
+        return eao.portfolio.Portfolio([pl, mc, xt, st, mG, mB, ml])
     if kind == 'linked':
         # LinkedAsset: lags given in main time units are converted to grid steps in every set-up (15-minute grid: 1 h = 4 steps)
         nP = shapes.nodes('P')[0]
